@@ -234,6 +234,23 @@ def pagesDoc (pages : List (Bytes × Bytes × Bool × Bool)) (inner : Bool) : By
      (if inner then [obj 5 (bs "<< /Type /Pages /Parent 2 0 R /Count " ++ natStr n ++ bs " /Kids [" ++ kidsTxt ++ bs "] >>")] else []) ++
      pageObjs) [] (bs "1 0 R")
 
+/-- a one-page document (embedded standard font) whose page has /Contents [4 0 R 8 0 R] -/
+def twoStreamDoc (a b : Bytes) : Bytes :=
+  assemble hdr
+    [obj 1 (bs "<< /Type /Catalog /Pages 2 0 R >>"),
+     obj 2 (bs "<< /Type /Pages /Kids [3 0 R] /Count 1 >>"),
+     obj 3 (bs "<< /Type /Page /Parent 2 0 R /MediaBox [0 0 612 792] /Contents [4 0 R 8 0 R] /Resources << /Font << /F1 5 0 R >> >> >>"),
+     streamObj 4 [] (natStr a.length) a,
+     obj 5 (bs "<< /Type /Font /Subtype /Type1 /BaseFont /Helvetica /FontDescriptor 6 0 R >>"),
+     obj 6 (bs "<< /Type /FontDescriptor /FontName /Helvetica /Flags 32 /FontFile 7 0 R >>"),
+     streamObj 7 [] (bs "3") (bs "abc"),
+     streamObj 8 [] (natStr b.length) b] [] (bs "1 0 R")
+
+/-- content snippets that are split over two content streams at every token boundary -/
+def splitFamily : List String :=
+  ["BT /F1 12 Tf (Hello) Tj T* [(W) -20 (orld)] TJ ET", "BX foo ) bar EX", "q BX BX ) EX EX Q", "BT (a) (b) (c) \" ET",
+   "1 2 m 3 4 l W n BI /W 1 ID xyz EI", "BX EX ) q", "BT [ (a) [ (b) ] ] TJ ET", "<< /A << /B [ 1 2 ] >> >> BDC EMC"]
+
 def contentFamily : List String :=
   ["", " ", "% only a comment", "BX ) EX", "BX > EX", "BX ] EX", "BX { EX", "BX } EX", "BX foo EX", "BX foo", "BX BX foo EX bar EX",
    "BX EX foo", "EX", "BX EX EX", "BX (a) ) EX", "BX << EX", "BX [ EX", "BX <41 EX", "BX /#00 EX", "q BX ) EX Q",
@@ -242,6 +259,16 @@ def contentFamily : List String :=
    "1 2 m W n", "1 2 m W 3 4 l", "0 0 1 1 re W* n f", "BI /W 1 ID abc EI", "BI ID EI", "BI /W 1 ID", "EI", "ID",
    "/GS1 gs /F1 12 Tf", "BT /F1 12 Tf 1 0 0 1 0 0 Tm (x) Tj T* ET", "<< /A 1 >> BDC EMC", "/OC /MC0 BDC EMC", "BMC", "sh", "/Im1 Do",
    "1 0 R", "BT 1 0 R Tj ET", "true false null m", "[1 2] 0 d", "[[[[[[[[[[[[[[[[[[[[[[[[[[[[[[[[[[[[[[[[[[[[[[[[[[[[[[[[[[1", "((((", "<", "<<", "/", "#",
+   "9223372036854775807 w", "9223372036854775808 w", "-9223372036854775808 w", "-9223372036854775809 w",
+   "170141183460469231731687303715884105727 w", "170141183460469231731687303715884105728 w", "0.170141183460469231731687303715884105728 w",
+   "1.00000000000000000000000000000000000000000 w", "9223372036854775807 0 R Tj", "1 9223372036854775808 R Tj",
+   "/A#00B gs", "/#00 gs", "/A#0 gs", "/A#zz gs", "/A#20B gs", "BX /A#00B EX", "foo#00 1", "BX foo#00 EX",
+   "q % comment without end of line", "% c1\r% c2\rq Q", "BX % )\n EX", "BX (%) EX", "q Q %", "%",
+   "BI /W 2 /H 2 /BPC 8 ID \x00\xff\x80)(> EI Q", "BI /W 1 ID EI EI", "q BI ID \x00 EI Q", "BI BI ID EI", "BI ET",
+   "1 2 3 4 5 6 7 8 9 m", "m", "Tj", "BT Tj ET", "BT (a) (b) Tj ET", "BT 1 Tj ET", "BT [(a)] Tj ET", "BT (a) TJ ET", "BT 1 2 3 Td ET", "BT Td ET",
+   "q q q q q q q q q q q q q q q q q q q q q q q q q q q q q q q q q q q q q q q q", "Q Q Q", "BX BX BX BX EX", "BX EX EX EX foo",
+   ") BX EX", "BX EX )", "BX )", "BX ) ) ) EX", "BX > > EX", "BX ] [ EX", "BX } { EX", "BX {foo} EX", "{", "}", "]", ">", ")", ">>",
+   "BX ( EX", "BX < EX", "BX [ 1 EX", "BX << /A EX", "BX <</A 1 EX", "( unterminated", "< 41", "[ 1 2", "<< /A 1", "<< /A >>", "<< 1 2 >> gs",
    "99999999999999999999 w", "1.5.5 w", "-", "+1 w", ".", "..", "BT (\\) Tj ET", "BT <4> Tj ET", "BT <zz> Tj ET", "\x00\x00", "f*", "b*", "B*", "'", "\""]
 
 def contentTokens : List String :=
@@ -320,8 +347,17 @@ def gen (seed n : Nat) (tier : String) (emit : String → IO Unit) : IO Unit := 
   -- operands without operator, text objects left open, inline images, every state of Figure 9
   for c in contentFamily do
     doc (baseDoc (bs c) [] none (bs "[3 0 R]") [] [] [] [])
-  doc (baseDoc (bs "BT (a) Tj") [] none (bs "[3 0 R]") (bs "/Contents [4 0 R 8 0 R]") [] []
-        [streamObj 8 [] (bs "5") (bs " ET q")])
+  for c in contentFamily do
+    doc (twoStreamDoc (bs c) (bs c))
+    doc (twoStreamDoc (bs "BX") (bs c ++ bs " EX"))
+    doc (twoStreamDoc (bs "BT") (bs c))
+  for c in splitFamily do
+    let toks := c.splitOn " "
+    for i in List.range (toks.length + 1) do
+      doc (twoStreamDoc (bs (" ".intercalate (toks.take i))) (bs (" ".intercalate (toks.drop i))))
+  for nn in [10, 49, 50, 51, 1000, 100000] do
+    for dct in [false, true] do
+      doc (baseDoc (bs "BX " ++ nested nn dct ++ bs " foo EX") [] none (bs "[3 0 R]") [] [] [] [])
   doc (baseDoc (zlibStored (bs "BX ) EX")) (bs "/Filter /FlateDecode") none (bs "[3 0 R]") [] [] [] [])
   -- several pages: a page skipped because a content stream does not decode or is not a stream, followed by a
   -- page that is fine / has a non-embedded font / has ill-formed content; contents arrays; an inner node
@@ -383,7 +419,13 @@ def gen (seed n : Nat) (tier : String) (emit : String → IO Unit) : IO Unit := 
         let (t, r) := acc.2.pick contentTokens
         (acc.1 ++ bs t ++ bs " ", r)) (([] : Bytes), r3)
       r := r4
-      doc (baseDoc c [] none (bs "[3 0 R]") [] [] [] [])
+      let (x, r5) := r4.pick contentFamily
+      let (y, r6) := r5.pick contentFamily
+      let (w, r7) := r6.nat 3
+      r := r7
+      if w == 0 then doc (baseDoc c [] none (bs "[3 0 R]") [] [] [] [])
+      else if w == 1 then doc (baseDoc (bs x ++ bs " " ++ bs y) [] none (bs "[3 0 R]") [] [] [] [])
+      else doc (twoStreamDoc (bs x ++ bs " " ++ c) (bs y))
 
 /-- the end-to-end model (Model/Pipeline.lean) on the bytes of the case -/
 def showOutcome : Pipeline.Outcome → String
